@@ -160,6 +160,7 @@ impl<'a> StateMachine<'a> {
             }
 
             self.handle_pending_submodule_short_commit(false)?;
+            self.handle_pending_hunk_header_line(false)?;
 
             // Every method named handle_* must return std::io::Result<bool>.
             // The bool indicates whether the line has been handled by that
@@ -187,6 +188,7 @@ impl<'a> StateMachine<'a> {
 
         self.handle_unterminated_merge_conflict()?;
         self.handle_pending_submodule_short_commit(true)?;
+        self.handle_pending_hunk_header_line(true)?;
         self.handle_pending_line_with_diff_name()?;
         self.painter.paint_buffered_minus_and_plus_lines();
         self.painter.emit()?;
